@@ -178,7 +178,7 @@ def run(ctx, model_ok):
     rep.rule = ("a table with 4 commits (append, a 3-file transaction, append, then a delete dropping one whole manifest and PART of the 3-file one, so a rewritten manifest carries survivors): every file reachable from the current snapshot "
                 "(current metadata file, manifest list, each manifest, each data file) × 12 damage classes (delete, empty, garbage, 5 truncations, "
                 "3 byte flips, swap with a sibling of the same kind) + a transient error on the first touch × 7 read APIs / options. "
-                "the data-file damages again through a handle that had already read the table once. non-trivial = the damaged file is touched by the API and the damage makes it unparseable (or the checksum applies).")
+                "the data-file damages again through a handle that had already read the table once (also with size and mtime preserved); the current metadata file present but unparseable while the pointer is lost or garbage. non-trivial = the damaged file is touched by the API and the damage makes it unparseable (or the checksum applies).")
     base = scratch_dir("c14-")
     model_rows = []
     try:
@@ -265,6 +265,34 @@ def run(ctx, model_ok):
                         if status != "altered" or (kind == "data" and chk == "1"):     # unverified altered bytes: outside the property
                             model_rows.append((f"rd.outcome {kind} {status} {'1' if touches else '0'} {chk}",
                                                "raise" if outcome.startswith("raise") else ("same" if got == clean[api] else "different"), case))
+        # ---- the current metadata file damaged (present but unparseable) WHILE the pointer is lost or unreadable: the recovery scan must
+        # not quietly elect an older version that parses (a deleted current file is the listed finding; a present, torn one is not)
+        data = store.get(cur_meta)
+        for dname, dbytes in _damages(data, None):
+            if dname == "deleted" or not isinstance(dbytes, bytes) or _parses("meta", dbytes) is not None:
+                continue
+            for hint_state in ("pointer-deleted", "pointer-garbage"):
+                shutil.rmtree(path)
+                shutil.copytree(snap, path, copy_function=shutil.copy2)
+                with open(os.path.join(path, cur_meta), "wb") as f:
+                    f.write(dbytes)
+                hp = os.path.join(path, reader.HINT)
+                if hint_state == "pointer-deleted":
+                    os.remove(hp)
+                else:
+                    with open(hp, "wb") as f:
+                        f.write(b"\xff\xfenot a pointer")
+                for api, fn in APIS.items():
+                    rep.evaluations += 1
+                    rep.nontrivial(["c14-meta-no-pointer", dname, hint_state, api])
+                    case = {"kind": "damage-with-pointer-lost", "file_kind": "meta", "damage": dname, "pointer": hint_state, "api": api, "file": cur_meta}
+                    try:
+                        got = fn(tablekit.load(path))
+                    except Exception:       # noqa: BLE001
+                        continue
+                    n_got = got if isinstance(got, int) or got is None else len(got)
+                    rep.violate(f"C14:partial-or-altered-rows:meta:{dname}", f"{api}: current metadata file {dname} and {hint_state}: returned {n_got!r} "
+                                f"instead of raising (an older version was served)", case)
         # ---- a WARM handle: it has already read (and verified) every file once; the damage happens afterwards
         for rel in [r_ for r_ in targets if _kind(r_) == "data" and "data/nochk/" not in r_]:
             data = store.get(rel)
@@ -272,22 +300,30 @@ def run(ctx, model_ok):
             for dname, dbytes in _damages(data, sib):
                 if dname not in ("deleted", "flip-middle", "flip-tail", "swapped-with-sibling", "truncated-half", "garbage"):
                     continue
-                for api in ("scan", "scan_batches", "iter_records", "scan_parallel"):
+                same_size = isinstance(dbytes, bytes) and len(dbytes) == len(data)
+                for api, keep_times in [(a_, k_) for a_ in ("scan", "scan_batches", "iter_records", "scan_parallel")
+                                        for k_ in ((False, True) if same_size else (False,))]:
                     shutil.rmtree(path)
                     shutil.copytree(snap, path, copy_function=shutil.copy2)
                     hw = tablekit.load(path)
                     APIS[api](hw)                      # warm
                     full = os.path.join(path, rel)
+                    st0 = os.stat(full)
                     if dname == "deleted":
                         os.remove(full)
                     else:
                         with open(full, "wb") as f:
                             f.write(dbytes)
+                        if keep_times:
+                            # same size, same mtime: nothing but the content tells the two apart (bit rot, a restore tool that
+                            # preserves times, a sibling of equal size copied with cp -p)
+                            os.utime(full, ns=(st0.st_atime_ns, st0.st_mtime_ns))
                     if isinstance(dbytes, bytes) and dbytes == data:
                         continue
                     rep.evaluations += 1
-                    rep.nontrivial(["c14-warm", dname, api, rel])
-                    case = {"kind": "damage-after-first-read", "file_kind": "data", "damage": dname, "api": api, "file": rel}
+                    rep.nontrivial(["c14-warm", dname, api, rel, keep_times])
+                    case = {"kind": "damage-after-first-read", "file_kind": "data", "damage": dname, "api": api, "file": rel,
+                            "size_and_mtime_preserved": keep_times}
                     try:
                         got = APIS[api](hw)
                     except Exception:       # noqa: BLE001
